@@ -142,9 +142,11 @@ def mismatch_nest(repo, res, a):
             if eff in ("u0 = u1", "u1 = u0"):
                 n_unify += 1
                 which = "i0" if eff == "u0 = u1" else "i1"
-                bare = x.has("isinstance(i0, unyt_array)", False) or x.has("isinstance(i1, unyt_array)", False)
+                # the operand found all-zero must be the bare one: a zero-filled unyt_array does not adopt another unit
+                # (unyt_array([0., 0.], "m") + 5 is not 5 dimensionless)
+                bare = x.has(f"isinstance({which}, unyt_array)", False)
                 zero = x.has(f"np.count_nonzero({which}) == 0", True)
-                res.check(bare and zero, f"unify:{eff}#{i}", fn.where(a.differ_if), "units are unified without a dimension check outside the bare all-zero exception (one operand is not a unyt_array and the operand that adopts the other's unit has no non-zero element)", f"not isinstance(.., unyt_array) and np.count_nonzero({which}) == 0", sorted(x.facts), path=[f"{t}={tr}" for t, tr in sorted(x.facts)], rid=r2)
+                res.check(bare and zero, f"unify:{eff}#{i}", fn.where(a.differ_if), "units are unified without a dimension check outside the bare all-zero exception (the operand that adopts the other's unit is not a unyt_array and has no non-zero element)", f"not isinstance({which}, unyt_array) and np.count_nonzero({which}) == 0", sorted(x.facts), path=[f"{t}={tr}" for t, tr in sorted(x.facts)], rid=r2)
     res.check(n_unify >= 2, "zero-test", fn.where(a.differ_if), "the all-zero exception (bare zeros may be added / compared) is present for either operand", rid=r2)
     # the allowances above rest on Unit.is_dimensionless: it must be true for the dimensionless dimension only (a plane
     # angle, a logarithmic level ... are dimensions of their own and must be refused in `length < angle`)
@@ -421,7 +423,7 @@ MUTANTS = [
     Mutant("checked-set-shrunk", ARR, "unyt_array.__array_ufunc__", "                _arctan2_unit,\n", "", ("C01-R1",)),
     Mutant("mismatch-falls-through", ARR, "unyt_array.__array_ufunc__", "                        else:\n                            raise UnitOperationError(ufunc, u0, u1)\n                    conv, offset", "                        else:\n                            u1 = u0\n                    conv, offset", ("C01-R2",)),
     Mutant("comparison-any-mismatch", ARR, "unyt_array.__array_ufunc__", "                            elif u1.is_dimensionless:\n                                u1 = u0\n", "                            elif u1.is_dimensionless or True:\n                                u1 = u0\n", ("C01-R2",)),
-    Mutant("zero-rule-widened", ARR, "unyt_array.__array_ufunc__", "                        if any_nonzero[0] == 0:", "                        if any_nonzero[0] >= 0:", ("C01-R2",)),
+    Mutant("zero-rule-widened", ARR, "unyt_array.__array_ufunc__", "                        if np.count_nonzero(i0) == 0:", "                        if np.count_nonzero(i0) >= 0:", ("C01-R2",)),
     Mutant("eq-polarity", ARR, "unyt_array.__eq__", "np.zeros(self.shape", "np.ones(self.shape", ("C01-R3",)),
     Mutant("early-return-polarity", ARR, "unyt_array.__array_ufunc__", "func = np.zeros_like", "func = np.ones_like", ("C01-R3",)),
     Mutant("where-forgets-y", AF, "where", "_validate_units_consistency((x, y))", "_validate_units_consistency((x,))", ("C01-R4",)),
@@ -436,6 +438,7 @@ MUTANTS = [
     Mutant("twin-reorder-checked", ARR, "unyt_array.__array_ufunc__", "                _preserve_units,\n                _comparison_unit,\n", "                _comparison_unit,\n                _preserve_units,\n", (), benign=True),
     Mutant("entry-by-spelling", ARR, "unyt_array.__array_ufunc__", "if u0 is not u1 and u0 != u1:", "if u0 is not u1 and u0.expr != u1.expr:", ("C01-R2",)),
     Mutant("entry-without-identity-shortcut", ARR, "unyt_array.__array_ufunc__", "if u0 is not u1 and u0 != u1:", "if u0 != u1:", (), benign=True),
+    Mutant("zero-unyt-array-adopts-bare-unit", ARR, "unyt_array.__array_ufunc__", "                    if not isinstance(i0, unyt_array):\n                        if np.count_nonzero(i0) == 0:\n                            u0 = u1\n                    elif not isinstance(i1, unyt_array):\n                        if np.count_nonzero(i1) == 0:\n                            u1 = u0\n", "                    if not isinstance(i0, unyt_array) or not isinstance(i1, unyt_array):\n                        if np.count_nonzero(i0) == 0:\n                            u0 = u1\n                        elif np.count_nonzero(i1) == 0:\n                            u1 = u0\n", ("C01-R2",)),
     Mutant("coerce-list-bare-elements-match", ARR, "_coerce_iterable_units", 'ff != getattr(_, "units", NULL_UNIT)', 'ff != getattr(_, "units", ff)', ("C01-R8",)),
     Mutant("angles-count-as-dimensionless", UO, "Unit.is_dimensionless", "return self.dimensions is sympy_one", "return self.dimensions is sympy_one or self.dimensions is angle", ("C01-R2",)),
     Mutant("table-row-dimension", "unyt/_unit_lookup_table.py", None, '("smoot", (1.7018, dimensions.length,', '("smoot", (1.7018, dimensions.time,', ("C01-R9",)),
